@@ -2,6 +2,7 @@
 from __future__ import annotations
 
 import asyncio
+import posixpath
 import random
 import sys
 from pathlib import Path
@@ -13,7 +14,7 @@ from streamflow.data.manager import DefaultDataManager
 from sfv.framework import Ctx, Property
 from sfv.rt.hexs import hx
 from sfv.rt.loop import run_controlled
-from sfv.translate import srcloc
+from sfv.translate import innerpath, srcloc
 
 DRIVER = "Drivers/C21.lean"
 
@@ -57,10 +58,10 @@ def prefixes(p: str):
 # reference: the registry without its valid_paths cache, invalidation = the whole subtree on that location
 # ------------------------------------------------------------------------------------------------
 class RObj:
-    __slots__ = ("loc", "path", "valid")
+    __slots__ = ("loc", "path", "valid", "relpath")
 
-    def __init__(self, loc, path):
-        self.loc, self.path, self.valid = loc, path, True
+    def __init__(self, loc, path, relpath=None):
+        self.loc, self.path, self.valid, self.relpath = loc, path, True, relpath if relpath is not None else path
 
 
 class Ref:
@@ -75,13 +76,18 @@ class Ref:
         ents.append(obj)
         return True
 
-    def register(self, loc, path):
-        obj = RObj(loc, path)
+    def register(self, loc, path, relpath=None):
+        rel = relpath or path
+        obj = RObj(loc, path, rel)
         for q in reversed(prefixes(path)):
             self.nodes.setdefault(q, {})
+        # a parent directory's relpath is the matching tail of the registered relpath, else its own name
+        cur = rel
         for q in reversed(prefixes(path)):
-            if not self._put(q, obj if q == path else RObj(loc, q)):
+            o = obj if q == path else RObj(loc, q, cur if cur and q.endswith(cur) else posixpath.basename(q))
+            if not self._put(q, o):
                 break
+            cur = posixpath.dirname(cur)
         return obj
 
     def relate(self, src, dst):
@@ -102,6 +108,29 @@ class Ref:
     def get(self, path, loc):
         return sorted(o.path for o in self.nodes.get(path, {}).get(loc, []) if o.valid)
 
+    def get_rel(self, path, loc):
+        return sorted((o.path, o.relpath) for o in self.nodes.get(path, {}).get(loc, []) if o.valid)
+
+
+# the wrapped location d2 (on d0): a mount nested inside another one, and one whose name merely starts like them
+MOUNTS = {"/m": "/a", "/m/b": "/e/x", "/mm": "/b"}
+# chained wrapping (d2 on d1 on d0): the mounts of d1
+MOUNTS1 = {"/a": "/h/a", "/e/x": "/h/x"}
+
+
+def spec_inner(path: str, mounts=None):
+    """where a path of the wrapped location lives on the wrapped one: the LONGEST mount point that is a component-wise prefix"""
+    ps = parts(path)
+    best = None
+    for mnt, target in (MOUNTS if mounts is None else mounts).items():
+        ms = parts(mnt)
+        if ps[: len(ms)] == ms and (best is None or len(ms) > len(parts(best[0]))):
+            best = (mnt, target)
+    if best is None:
+        return None
+    rest = ps[len(parts(best[0])):]
+    return posixpath.join(best[1], *rest) if rest else best[1]
+
 
 def gen_history(rng: random.Random, nloc: int, depth: int, nops: int, wrapped: bool = False):
     names = ["a", "b", "e", "f"]
@@ -119,13 +148,41 @@ def gen_history(rng: random.Random, nloc: int, depth: int, nops: int, wrapped: b
                 p = str(Path(p).parent) if p.count("/") > 1 else p
             l = rng.randrange(nloc)
             if l == 2 and wrapped:
-                # location 2 wraps location 0 with the mount /m -> /a: one register_path call registers both ends and relates them
-                ops.append(("wreg", 2, "/m" + p, 0, "/a" + p))
+                # location 2 wraps location 0 (MOUNTS): one register_path call registers both ends and relates them; the host path
+                # is the one below the longest matching mount; a path below no mount is registered on the wrapper only
+                outer = rng.choice(["/m", "/m", "/m/b", "/m/b", "/mm", "/q"]) + p
+                host = spec_inner(outer)
+                if host is None:
+                    ops.append(("reg", 2, outer))
+                    rloc.append(2)
+                    nreg += 1
+                    continue
+                if wrapped == "chain":
+                    # d2 wraps d1 wraps d0: one call registers up to three ends, each related to the outermost one
+                    host0 = spec_inner(host, MOUNTS1)
+                    ops.append(("wregc", 2, outer, 1, host, host0))
+                    inner.add(nreg + 1)
+                    rloc += [2, 1]
+                    nreg += 2
+                    if host0 is not None:
+                        inner.add(nreg)
+                        rloc.append(0)
+                        nreg += 1
+                    continue
+                ops.append(("wreg", 2, outer, 0, host))
                 inner.add(nreg + 1)
                 rloc += [2, 0]
                 nreg += 2
                 continue
-            ops.append(("reg", l, p))
+            if l == 1 and wrapped == "chain" and spec_inner(p, MOUNTS1) is not None:
+                ops.append(("wreg", 1, p, 0, spec_inner(p, MOUNTS1)))       # d1 itself wraps d0
+                inner.add(nreg + 1)
+                rloc += [1, 0]
+                nreg += 2
+                continue
+            comps = p.strip("/").split("/")
+            rel = rng.choice([None, None, comps[-1], "/".join(comps[-2:]), "/".join(comps[-3:]), "/".join(comps), "zz/" + comps[-1]])
+            ops.append(("reg", l, p) if rel is None else ("reg", l, p, rel))
             rloc.append(ops[-1][1])
             nreg += 1
         elif r < 0.65:
@@ -143,6 +200,8 @@ def gen_history(rng: random.Random, nloc: int, depth: int, nops: int, wrapped: b
                 p = "/"
             elif x < 0.38:
                 p = "/zz/y"
+            elif wrapped and x < 0.6:
+                p = rng.choice(["/m", "/m/b", "/mm", "/e/x", "/e", "/a", "/a/b", "/b", "/h", "/h/x", "/h/a"]) + rng.choice(["", "", p])
             ops.append(("inv", rng.randrange(nloc), p))
     return ops
 
@@ -232,7 +291,13 @@ CORPUS = [
     # a subtree skipped by the invalidation walk
     [("reg", 1, "/b/e/a"), ("reg", 0, "/b"), ("reg", 1, "/b/e/a/f"), ("rel", 1, 0), ("inv", 1, "/")],
     # wrapped location d2 (mount /m -> /a on d0): one call registers both ends
-    [("reg", 1, "/x"), ("wreg", 2, "/m/b/f", 0, "/a/b/f"), ("inv", 0, "/a/b/f"), ("wreg", 2, "/m/b/f", 0, "/a/b/f"), ("inv", 2, "/m")],
+    [("reg", 1, "/x"), ("wreg", 2, "/m/c/f", 0, "/a/c/f"), ("inv", 0, "/a/c/f"), ("wreg", 2, "/m/c/f", 0, "/a/c/f"), ("inv", 2, "/m")],
+    # chained wrapping: d2:/m/b/f -> d1:/e/x/f -> d0:/h/x/f, all related to the outermost; d2:/mm/f stops on d1 (/b/f is below no mount)
+    [("wregc", 2, "/m/b/f", 1, "/e/x/f", "/h/x/f"), ("wregc", 2, "/mm/f", 1, "/b/f", None), ("inv", 0, "/h/x"), ("wreg", 1, "/a/f", 0, "/h/a/f"),
+     ("inv", 1, "/e"), ("wregc", 2, "/m/b/f", 1, "/e/x/f", "/h/x/f")],
+    # nested mounts: /m/b/f/g lives below /e/x (mount /m/b), not below /a/b (mount /m); invalidating the host side reaches it
+    [("wreg", 2, "/m/b/f/g", 0, "/e/x/f/g"), ("wreg", 2, "/m/a/f", 0, "/a/a/f"), ("wreg", 2, "/mm/a", 0, "/b/a"), ("inv", 0, "/e/x"),
+     ("wreg", 2, "/m/b/f/g", 0, "/e/x/f/g"), ("inv", 0, "/a")],
     [("reg", 0, "/a/b/c"), ("inv", 0, "/a"), ("reg", 0, "/a/b/c"), ("reg", 1, "/a/b"), ("inv", 0, "/a/b/c"), ("inv", 1, "/")],
     [("reg", 0, "/a"), ("reg", 0, "/a"), ("inv", 0, "/a"), ("inv", 0, "/a"), ("reg", 0, "/a"), ("inv", 0, "/zz")],
     [("reg", 0, "/a/f"), ("reg", 0, "/b/g"), ("rel", 0, 1), ("inv", 0, "/a"), ("reg", 0, "/a/f")],
@@ -245,7 +310,7 @@ class C21(Property):
     lean_targets = ["SFV.Props.C21", "SFV.Model.Proto"]
     props_files = ["SFV/Props/C21.lean"]
     drivers = [DRIVER]
-    translators = [srcloc.generate]
+    translators = [srcloc.generate, innerpath.generate]
     rule = ("random operation histories (register_path, register_relation between earlier registrations, invalidate_location on "
             "registered paths, their ancestors, the root and unknown paths) over path trees of depth 1..4 on 1..3 locations; after "
             "every operation get_data_locations is read for every (node path, location) on the real DefaultDataManager, on the Lean "
@@ -261,6 +326,8 @@ class C21(Property):
         "DataLocation states (deployment, local, data_type, available) between two resumptions is arbitrary (mirrored from the real "
         "objects in the correspondence check); asyncio: a task runs until it awaits an unset Event",
         "translator harness/sfv/translate/srcloc.py (ast shape of the three candidate loops -> SFV/Gen/SourceLoc.lean)",
+        "translator harness/sfv/translate/innerpath.py (the sort order of the mounts in get_inner_path -> SFV/Gen/InnerPath.lean); "
+        "Python's string order on mount points is modelled by Lean's String order; PurePath.is_relative_to = component-wise prefix",
         "a registration on a wrapped location (mount points, get_inner_path) enters the Lean model as its three primitive steps: register outer, register inner, relate",
     ]
     technique = ("Lean 4 model of the trie with object identities (heap) and the valid_paths cache; an inductive invariant over every "
@@ -271,7 +338,8 @@ class C21(Property):
                   "path, touches no object of another location and only clears validity (invalidate_subtree); a registration always "
                   "makes the path available (reregister_available); get_source_location, run as a task while transfers are in flight "
                   "against an arbitrary environment, only returns a location that is PRIMARY and available at return time "
-                  "(source_is_valid_primary) and returns None only if every candidate was lost (source_none_only_if_lost); model compared with the real DefaultDataManager after every "
+                  "(source_is_valid_primary) and returns None only if every candidate was lost (source_none_only_if_lost); a path of a "
+                  "wrapping location is mapped through the longest matching mount (inner_path_uses_longest_mount); model compared with the real DefaultDataManager after every "
                   "operation of random histories, the three histories that failed before the fix kept as regression guards")
     level_note = ("Lean kernel, axioms within {propext, Classical.choice, Quot.sound}; hand-written model tied to the code by the "
                   "correspondence check")
@@ -290,8 +358,11 @@ class C21(Property):
     def _run(self, ctx: Ctx, ops, nloc, lines, expect, meta, bucket):
         dm = DefaultDataManager(_Context())
         locs = [ExecutionLocation(name="loc", deployment=f"d{i}", local=False) for i in range(nloc)]
-        if any(o[0] == "wreg" for o in ops):
-            locs[2] = ExecutionLocation(name="loc", deployment="d2", local=False, mounts={"/m": "/a"}, wraps=locs[0])
+        if any(o[0] == "wregc" for o in ops) or any(o[0] == "wreg" and o[1] == 1 for o in ops):
+            locs[1] = ExecutionLocation(name="loc", deployment="d1", local=False, mounts=dict(MOUNTS1), wraps=locs[0])
+            locs[2] = ExecutionLocation(name="loc", deployment="d2", local=False, mounts=dict(MOUNTS), wraps=locs[1])
+        elif any(o[0] == "wreg" for o in ops):
+            locs[2] = ExecutionLocation(name="loc", deployment="d2", local=False, mounts=dict(MOUNTS), wraps=locs[0])
         ref = Ref()
         regs, rregs = [], []
         universe = set()
@@ -301,9 +372,10 @@ class C21(Property):
         nontriv, seen_inv = False, False
         for i, op in enumerate(ops):
             if op[0] == "reg":
-                _, l, p = op
-                regs.append(dm.register_path(locs[l], p))
-                rregs.append(ref.register(l, p))
+                _, l, p = op[:3]
+                rel = op[3] if len(op) > 3 else None
+                regs.append(dm.register_path(locs[l], p, relpath=rel))
+                rregs.append(ref.register(l, p, rel))
                 universe.update(prefixes(p))
                 res, rres = "ok", "ok"
                 lines.append(f"reg {l} {pp(p)}")
@@ -311,6 +383,7 @@ class C21(Property):
                     nontriv = True
             elif op[0] == "wreg":
                 _, l, p, li, pi = op
+                self._inner(ctx, locs[l], p, lines, expect, meta, ops, i)
                 regs += [dm.register_path(locs[l], p), None]           # one call: outer + inner registration + relation
                 ro, ri = ref.register(l, p), ref.register(li, pi)
                 ref.relate(ro, ri)
@@ -322,6 +395,32 @@ class C21(Property):
                 lines += [f"reg {l} {pp(p)}", f"reg {li} {pp(pi)}", f"rel {k} {k + 1}"]
                 expect += ["ok", "ok"]
                 meta += [(ops, i, "wreg"), (ops, i, "wreg")]
+                if seen_inv:
+                    nontriv = True
+            elif op[0] == "wregc":
+                _, l, p, l1, p1, p0 = op
+                self._inner(ctx, locs[l], p, lines, expect, meta, ops, i)
+                self._inner(ctx, locs[l1], p1, lines, expect, meta, ops, i)
+                regs += [dm.register_path(locs[l], p), None]           # one call: every end of the chain + the relations
+                ro, r1 = ref.register(l, p), ref.register(l1, p1)
+                ref.relate(ro, r1)
+                rregs += [ro, r1]
+                universe.update(prefixes(p))
+                universe.update(prefixes(p1))
+                k = len(regs) - 2
+                lines += [f"reg {l} {pp(p)}", f"reg {l1} {pp(p1)}", f"rel {k} {k + 1}"]
+                expect += ["ok", "ok"]
+                meta += [(ops, i, "wregc"), (ops, i, "wregc")]
+                if p0 is not None:
+                    regs.append(None)
+                    r0 = ref.register(0, p0)
+                    ref.relate(ro, r0)
+                    rregs.append(r0)
+                    universe.update(prefixes(p0))
+                    lines += [f"reg 0 {pp(p0)}", f"rel {k} {k + 2}"]
+                    expect += ["ok", "ok"]
+                    meta += [(ops, i, "wregc"), (ops, i, "wregc")]
+                res, rres = "ok", "ok"
                 if seen_inv:
                     nontriv = True
             elif op[0] == "rel":
@@ -370,19 +469,47 @@ class C21(Property):
                     meta.append((ops, i, f"get_data_locations({q!r}, d{l})"))
                     if real != want:
                         diffs.append((q, l, real, want))
+                    else:
+                        rel_real = sorted((o.path, o.relpath) for o in dm.get_data_locations(q, deployment=f"d{l}", location_name="loc"))
+                        if rel_real != ref.get_rel(q, l) and len(set(x for x, _ in rel_real)) == len(rel_real):
+                            self._fail(ctx, "registry:relpath-differs",
+                                       f"after {ops[: i + 1]}: get_data_locations({q!r}, d{l}) has (path, relpath) {rel_real}, expected "
+                                       f"{ref.get_rel(q, l)}", {"ops": ops[: i + 1], "nloc": nloc})
+                    # the data_type filter, against the unfiltered answer
+                    allv = dm.get_data_locations(q, deployment=f"d{l}", location_name="loc")
+                    for dt in (DataType.PRIMARY, DataType.SYMBOLIC_LINK, DataType.INVALID):
+                        typed = dm.get_data_locations(q, deployment=f"d{l}", location_name="loc", data_type=dt)
+                        if sorted(map(id, typed)) != sorted(id(v) for v in allv if v.data_type == dt):
+                            self._fail(ctx, "registry:data-type-filter",
+                                       f"after {ops[: i + 1]}: get_data_locations({q!r}, d{l}, data_type={dt.name}) returns "
+                                       f"{[(v.path, v.data_type.name) for v in typed]}, the unfiltered answer holds "
+                                       f"{[(v.path, v.data_type.name) for v in allv]}", {"ops": ops[: i + 1], "nloc": nloc})
             # the source location chosen for a transfer is a valid primary copy of that path
+            hung = False
             for q in sorted(universe)[:6]:
+                if hung:
+                    break
                 for l in range(nloc):
-                    src = _LOOP.run_until_complete(dm.get_source_location(q, f"d{l}"))
+                    try:
+                        src = _LOOP.run_until_complete(asyncio.wait_for(dm.get_source_location(q, f"d{l}"), 5))
+                    except asyncio.TimeoutError:
+                        self._fail(ctx, "registry:source-location-hangs",
+                                   f"after {ops[: i + 1]}: get_source_location({q!r}, d{l}) does not return although no transfer is "
+                                   f"in flight (a registered location never becomes available)", {"ops": ops[: i + 1], "nloc": nloc})
+                        hung = True
+                        self._hangs = getattr(self, "_hangs", 0) + 1
+                        break
                     ctx.count("get_source_location:" + ("none" if src is None else "some"))
-                    valid = dm.get_data_locations(q, data_type=DataType.PRIMARY)
+                    valid = [v for v in dm.get_data_locations(q) if v.data_type == DataType.PRIMARY]     # not through the typed query
                     if (src is None) != (not valid) or (src is not None and (src.data_type != DataType.PRIMARY or not any(src is v for v in valid))):
                         self._fail(ctx, "registry:source-location-not-a-valid-primary",
                                    f"after {ops[: i + 1]}: get_source_location({q!r}, d{l}) = "
                                    f"{None if src is None else (src.deployment, src.path, src.data_type.name)}, valid primaries "
                                    f"{[(v.deployment, v.path) for v in valid]}", {"ops": ops[: i + 1], "nloc": nloc})
+            if hung:
+                break
             if diffs:
-                has_rel = any(o[0] in ("rel", "wreg") for o in ops[: i + 1])
+                has_rel = any(o[0] in ("rel", "wreg", "wregc") for o in ops[: i + 1])
                 stale = []
 
                 def walk(node, where, l):
@@ -414,6 +541,22 @@ class C21(Property):
                            {"ops": ops[: i + 1], "nloc": nloc})
                 break
         ctx.case({"ops": [list(o) for o in ops[:10]], "nloc": nloc}, ("h", nloc, repr(ops)) if nontriv else None, bucket)
+
+    def _inner(self, ctx: Ctx, loc, path, lines, expect, meta, ops, i):
+        """get_inner_path on the real classes against the Lean model (and the independent `spec_inner`)"""
+        from streamflow.data.remotepath import StreamFlowPath, get_inner_path
+        for q in (path, str(Path(path).parent), "/q/zz", "/mm", "/m/b"):
+            got = get_inner_path(StreamFlowPath(q, context=_Context(), location=loc))
+            got = None if got is None else str(got)
+            mounts = ";".join(f"{pp(k)}>{pp(v)}" for k, v in loc.mounts.items())
+            lines.append(f"inner {mounts} {pp(q)}")
+            expect.append("desc=1|" + ("~" if got is None else pp(got)))
+            meta.append((ops, i, f"get_inner_path({q!r})"))
+            ctx.count("inner-path:" + ("none" if got is None else "some"))
+            if got != spec_inner(q, loc.mounts):
+                self._fail(ctx, "registry:inner-path-not-longest-mount",
+                           f"get_inner_path({q!r}) with mounts {dict(loc.mounts)} = {got!r}, the longest matching mount gives {spec_inner(q, loc.mounts)!r}",
+                           {"ops": ops[: i + 1], "nloc": 3})
 
     def _flight(self, ctx: Ctx, h, seed, lines, expect, meta, bucket):
         nloc, ops = h["nloc"], [tuple(o) for o in h["ops"]]
@@ -496,13 +639,18 @@ class C21(Property):
                     _, pth, l = op
                     dep = f"d{l}"
                     at_call = dm.get_data_locations(path=pth, data_type=DataType.PRIMARY)
+                    independent = [v for v in dm.get_data_locations(path=pth) if v.data_type == DataType.PRIMARY]
+                    if sorted(map(id, at_call)) != sorted(map(id, independent)):
+                        out["fails"].append(("registry:data-type-filter",
+                                             f"get_data_locations({pth!r}, data_type=PRIMARY) = {[(v.deployment, v.path) for v in at_call]}, "
+                                             f"the unfiltered answer has the primaries {[(v.deployment, v.path) for v in independent]}"))
                     same = list({loc for loc in at_call if loc.deployment == dep})            # the iteration orders of the code's sets
                     local = list({loc for loc in at_call if loc.location.local})
                     sync(at_call, what)
                     fmt = lambda xs: ",".join(str(idx(x)) for x in xs) or "~"     # noqa: E731
                     emit(f"fask {fmt(same)} {fmt(local)} {fmt(at_call)}", "ok", what)
                     k = len(tasks)
-                    tasks.append(asyncio.create_task(ask(k, pth, dep, list(at_call))))
+                    tasks.append(asyncio.create_task(ask(k, pth, dep, list(independent))))
                     out["asked"] += 1
                     await tick(what)
                     if k not in results:
@@ -528,9 +676,10 @@ class C21(Property):
             out["lost"] = sum(1 for dl in flights if dl.data_type != DataType.PRIMARY)
 
         try:
-            run_controlled(drive, seed=seed, timeout=60)
+            run_controlled(drive, seed=seed, timeout=10)
         except TimeoutError:
-            out["fails"].append(("registry:source-location-hangs", "the history did not finish in 60 s"))
+            out["fails"].append(("registry:source-location-hangs", "the history did not finish in 10 s"))
+            self._hangs = getattr(self, "_hangs", 0) + 1
         for key, detail in out["fails"]:
             self._fail(ctx, key, f"in-flight history {ops}: {detail}", replay)
         lines += out["lines"]
@@ -544,33 +693,40 @@ class C21(Property):
     def explore(self, ctx: Ctx) -> None:
         rng = ctx.rng
         self._per_key = {}
+        self._hangs = 0
         lines, expect, meta = [], [], []
         for j, h in enumerate(FLIGHT_CORPUS):
+            if self._hangs >= 3:
+                break
             self._flight(ctx, h, j, lines, expect, meta, "flight:corpus")
             ctx.corpus_replayed += 1
         nf = 300 if ctx.tier == "quick" else 3000
         if ctx.mode == "search":
             nf *= 3
         for k in range(nf):
-            if ctx.out_of_time():
+            if ctx.out_of_time() or self._hangs >= 3:
                 break
             self._flight(ctx, gen_flight(rng), ctx.seed * 100003 + k, lines, expect, meta, "flight:random")
         for ops in CORPUS:
-            self._run(ctx, ops, 3 if any(o[0] == "wreg" for o in ops) else 2, lines, expect, meta, "corpus")
+            if self._hangs >= 3:
+                break
+            self._run(ctx, ops, 3 if any(o[0] in ("wreg", "wregc") for o in ops) else 2, lines, expect, meta, "corpus")
             ctx.corpus_replayed += 1
         n = 400 if ctx.tier == "quick" else 5000
         if ctx.mode == "search":
             n *= 3
         for k in range(n):
-            if ctx.out_of_time():
+            if ctx.out_of_time() or self._hangs >= 3:
                 ctx.extra["histories_run"] = k
-                if k < 100:
+                if k < 100 and self._hangs < 3:
                     ctx.extra["incomplete"] = True
                 break
             nloc = rng.randint(1, 3)
             wrapped = nloc == 3 and rng.random() < 0.5
+            if wrapped and rng.random() < 0.4:
+                wrapped = "chain"
             self._run(ctx, gen_history(rng, nloc, rng.randint(1, 4), rng.randint(3, 14), wrapped), nloc, lines, expect, meta,
-                      "random:wrapped" if wrapped else "random")
+                      "random:wrapped-chain" if wrapped == "chain" else "random:wrapped" if wrapped else "random")
         got = ctx.lean(DRIVER, lines)
         seen = set()
         for gl, e, m in zip(got, expect, meta):
